@@ -1036,12 +1036,14 @@ func (p *ProjectRunner) GetProjectState(checkMem bool) (*types.ProjectState, err
 			runningProcesses++
 		}
 	}
-	p.projectState.RunningProcessNum = runningProcesses
-	p.projectState.UpTime = time.Since(p.projectState.StartTime)
+	// concurrent callers each get their own copy
+	projectState := *p.projectState
+	projectState.RunningProcessNum = runningProcesses
+	projectState.UpTime = time.Since(projectState.StartTime)
 	if checkMem {
-		p.projectState.MemoryState = getMemoryUsage()
+		projectState.MemoryState = getMemoryUsage()
 	}
-	return p.projectState, nil
+	return &projectState, nil
 }
 
 func getMemoryUsage() *types.MemoryState {
